@@ -489,6 +489,23 @@ def main():
         stats["distinct"] |= s2["distinct"]
         failing = failing2
         disagreeing = disagreeing or dis2
+        if not failing and disagreeing:
+            # neighbourhood search around the disagreeing cases (implementation + oracle only)
+            rng = random.Random(seed + 4242)
+            vs = []
+            for (r, _d) in disagreeing[:4]:
+                vs.extend(gens.variants(r.case.lines, rng, 150 if tier == "quick" else 600))
+            if vs:
+                res, _ = engine.run_cases(vs, os.path.join(BUILD, "edgo"), None, want_model=False)
+                engine.analyse(res, with_corr=False)
+                stats["cases"] += len(res)
+                stats["lines"] += sum(len(x.case.lines) for x in res)
+                for x in res:
+                    rel = [m for m in x.mismatches if engine.relevant(pid, m)]
+                    if rel:
+                        failing.append((x, rel))
+                        break
+                log(f"neighbourhood search: {len(vs)} variants, failing input {'found' if failing else 'not found'}")
 
     if failing:
         r, rel = failing[0]
